@@ -93,6 +93,15 @@ func runCharHist(em *Emitter, hid int, h Hist, seed int64) {
 			if st.Idx >= 0 && st.Idx < len(r.RequireSets) {
 				r.RequireSets[st.Idx] = FromCPs(st.Cps)
 			}
+		case "sharetable": // two recipes use sub-slices of ONE caller-owned table: this one the first Idx entries, the other one more (spare capacity)
+			if st.From >= 0 && st.From < len(objs) && st.Idx >= 1 {
+				table := make([]string, st.Idx+1, st.Idx+1)
+				for k := range table {
+					table[k] = FromCPs(st.Sets[k%len(st.Sets)])
+				}
+				r.RequireSets = table[:st.Idx]
+				objs[st.From].RequireSets = table[:st.Idx+1]
+			}
 		case "share": // two recipes share one RequireSets slice
 			if st.From >= 0 && st.From < len(objs) {
 				r.RequireSets = objs[st.From].RequireSets
